@@ -225,3 +225,49 @@ Theorem C17_inner_curve_leaves_outer_when_radii_overlap_refuted :
     radii_eqb (rr (rounded_box W H R bt br bb bl)) (css_inner_fit W H R bt br bb bl) = false.
 Proof. exact inner_curve_leaves_outer_when_radii_overlap. Qed.
 Print Assumptions C17_inner_curve_leaves_outer_when_radii_overlap_refuted.
+
+(* ---- Box.rounded_box and its four callers as REGENERATED from weasyprint/formatting_structure/boxes.py on every
+   run (gen/GenBoxes.v, interpreter base/Py.v), with border_box_x / border_box_y / border_width / border_height /
+   padding_width / padding_height answered by their own regenerated bodies (base/PyLink.v): for every box geometry,
+   every eight radii and every four distances the returned tuple is the model's rounded box placed at the border
+   box (numbers up to ==); so the corner theorems above are about the source *)
+From Coq Require Import String.
+Require WV.base.Py WV.base.PyLink WV.gen.GenBoxes WV.proofs.C17_gen_rounded.
+Module GR := WV.proofs.C17_gen_rounded.
+
+Theorem C17_source_rounded_box n R g bt br bb bl :
+  Py.run (PyLink.linked GenBoxes.GenBoxes_table (S (S n))) GenBoxes.rounded_box_body
+      [("self"%string, GR.vbox R g); ("bt"%string, Py.VNum bt); ("br"%string, Py.VNum br); ("bb"%string, Py.VNum bb);
+       ("bl"%string, Py.VNum bl)]
+      (GR.post (GR.bbx g) (GR.bby g) (rounded_box (GR.bbw g) (GR.bbh g) R bt br bb bl)) (fun _ => False).
+Proof. exact (GR.gen_rounded_box_linked n R g bt br bb bl). Qed.
+Print Assumptions C17_source_rounded_box.
+
+Theorem C17_source_rounded_padding_box n R g :
+  Py.run (PyLink.linked GenBoxes.GenBoxes_table (S (S (S n)))) GenBoxes.rounded_padding_box_body [("self"%string, GR.vbox R g)]
+      (GR.ret_rep (GR.bbx g) (GR.bby g)
+         (rounded_padding_box (GR.bbw g) (GR.bbh g) R (GR.g_bt g, GR.g_br g, GR.g_bb g, GR.g_bl g))) (fun _ => False).
+Proof. exact (GR.gen_rounded_padding_box_linked n R g). Qed.
+Print Assumptions C17_source_rounded_padding_box.
+
+Theorem C17_source_rounded_border_box n R g :
+  Py.run (PyLink.linked GenBoxes.GenBoxes_table (S (S (S n)))) GenBoxes.rounded_border_box_body [("self"%string, GR.vbox R g)]
+      (GR.ret_rep (GR.bbx g) (GR.bby g) (rounded_border_box (GR.bbw g) (GR.bbh g) R)) (fun _ => False).
+Proof. exact (GR.gen_rounded_border_box_linked n R g). Qed.
+Print Assumptions C17_source_rounded_border_box.
+
+Theorem C17_source_rounded_content_box n R g :
+  Py.run (PyLink.linked GenBoxes.GenBoxes_table (S (S (S n)))) GenBoxes.rounded_content_box_body [("self"%string, GR.vbox R g)]
+      (GR.ret_rep (GR.bbx g) (GR.bby g)
+         (rounded_content_box (GR.bbw g) (GR.bbh g) R (GR.g_bt g, GR.g_br g, GR.g_bb g, GR.g_bl g)
+            (GR.g_pt g, GR.g_pr g, GR.g_pb g, GR.g_pl g))) (fun _ => False).
+Proof. exact (GR.gen_rounded_content_box_linked n R g). Qed.
+Print Assumptions C17_source_rounded_content_box.
+
+Theorem C17_source_rounded_box_ratio n R g k :
+  Py.run (PyLink.linked GenBoxes.GenBoxes_table (S (S (S n)))) GenBoxes.rounded_box_ratio_body
+      [("self"%string, GR.vbox R g); ("ratio"%string, Py.VNum k)]
+      (GR.ret_rep (GR.bbx g) (GR.bby g)
+         (rounded_box_ratio (GR.bbw g) (GR.bbh g) R (GR.g_bt g, GR.g_br g, GR.g_bb g, GR.g_bl g) k)) (fun _ => False).
+Proof. exact (GR.gen_rounded_box_ratio_linked n R g k). Qed.
+Print Assumptions C17_source_rounded_box_ratio.
